@@ -290,6 +290,7 @@ static void c03_tools(Case& cs) {
   Chooser& c = cs.c;
   filegen::Opts fo;
   fo.max_records = 4 + cs.size / 4;
+  if (c.range(0, 9) == 0) { fo.pad_to = (size_t)c.range(66000, 200000); cs.st.cls("seed_file_spans_several_decoder_windows"); }
   filegen::Result fr = filegen::make(c, cs.scratch, fo);
   mut::Stats ms;
   std::string bad = mut::mutate_file(c, fr.bytes, cs.size, ms);
@@ -311,7 +312,8 @@ static void c03_tools(Case& cs) {
   std::string what = std::string(T[tool]) + " on a mutated file (" + ms.show() + ", " + std::to_string(bad.size()) + " B)";
   cs.sample = what;
   if (cs.replay) printf("%s\nstatus=%d signaled=%d\nstderr=%s\n", what.c_str(), r.status, r.signaled, r.err.substr(0, 2000).c_str());
-  if (r.timed_out) { cs.st.cnt("inconclusive:tool_timeout"); return; }
+  // a tool run on such an input takes milliseconds; 120 s without exit is not "time proportional to the input" (the driver confirms by three isolated replays)
+  VF_CHECK(!r.timed_out, "sig=c03.tool." << T[tool] << ".no_termination " << what << " did not exit within 120 s");
   check_normal_exit(r, what, (std::string("c03.tool.") + T[tool]).c_str());
   cs.nontrivial = bad != fr.bytes;
   cs.st.cls(std::string("tool:") + T[tool]);
